@@ -419,11 +419,15 @@ class MarkdownNormalizer(Renderer):
 
         result: list[str] = []
 
+        # An ordered list keeps its delimiter (`1.` or `1)`), as a bullet list keeps its bullet:
+        # a change of delimiter is what separates two adjacent lists.
+        delimiter = ")" if element.ordered and str(element.bullet).endswith(")") else "."
+
         for i, child in enumerate(element.children):
             # Configure the appropriate prefix based on list type
             if element.ordered:
                 num = i + element.start
-                prefix = f"{num}. "
+                prefix = f"{num}{delimiter} "
                 subsequent_indent = " " * (len(str(num)) + 2)
             else:
                 prefix = f"{element.bullet} "
